@@ -14,12 +14,27 @@ package metrics
 //@   noframe
 //@   wraps_signed
 //@   requires c != nil
+//@   requires forall(i, 0, len(c.history), c.history[i] != nil && allocated(c.history[i]) && allocated(c.history[i].Delta) && allocated(c.history[i].TimeUnixMilli) && allocated(c.history[i].RollUp))
 //@   modifies c.history
 //@   assert_at "newHistory = append(newHistory, h)": last == nil
+//@   // Conservation of the total (C19), as bookkeeping over the run of the loop: gin accumulates
+//@   // the delta of every record read from the old history, gout the delta of every record at the
+//@   // moment it is handed to the new history; they agree at the end (in int64 arithmetic, i.e.
+//@   // modulo 2^64), and no record of the old history is modified on the way.
+//@   sets ghost(gin) = 0
+//@   sets ghost(gout) = 0
+//@   ghost_at "if h.GetRollUp() != fromLabel {": ghost(gin) = ghost(gin) + dOf(h)
+//@   ghost_at "newHistory = append(newHistory, last)": ghost(gout) = ghost(gout) + dOf(last)
+//@   ghost_at "newHistory = append(newHistory, h)": ghost(gout) = ghost(gout) + dOf(h)
+//@   ensures (ghost(gin) - ghost(gout)) % 18446744073709551616 == 0
+//@   ensures forall(i, 0, old(len(c.history)), old(c.history[i]).Delta == old(c.history[i].Delta) && (old(c.history[i].Delta) != nil ==> *old(c.history[i]).Delta == old(*c.history[i].Delta)))
 //@   loop 1:
 //@     modifies nothing
 //@     invariant -1 <= rangeindex && rangeindex < len(c.history)
-//@     invariant last != nil ==> last.Delta != nil && last.TimeUnixMilli != nil
+//@     invariant last != nil ==> last.Delta != nil && last.TimeUnixMilli != nil && fresh(last) && fresh(last.Delta)
+//@     invariant cap(newHistory) == 0 || fresh(newHistory)
+//@     invariant (ghost(gin) - ghost(gout) - ite(last != nil, mathint(*last.Delta), 0)) % 18446744073709551616 == 0
+//@     invariant forall(i, 0, len(c.history), c.history[i].Delta == old(c.history[i].Delta) && (c.history[i].Delta != nil ==> *c.history[i].Delta == old(*c.history[i].Delta)))
 
 //@ // Window query as seen by the quota check: its value is not constrained here (roll-up
 //@ // conservation is a separate obligation); each query is counted in ghost ndelta.
